@@ -112,7 +112,7 @@ def regen_constants():
 class C10(Property):
     id = "C10"
     title = "MapReduce: exactly-once mapping, complete reduction, clean termination"
-    quick_cases = 900
+    quick_cases = 820
     thorough_cases = 9000
     design_ref = "DESIGN.md §6/C10, §5/F4"
     level_text = ("Rocq theorems over a process-network LTS of core/mr (caller, generator wrapper, executeMappers, mapper "
@@ -236,17 +236,28 @@ class C10(Property):
              "maps": {str(i): [["write", i]] for i in range(1, 4)}, "red": rw, "events": [["g"]] * 3},
             # the caller held before its final select while a mapper panics and everything else runs to its end
             # (seeded change C10-9: wg.Done before panicChan.write lets output close before the panic is delivered)
-            {"api": "mr", "workers": 2, "ctx": "gate", "repeat": 6, "gen": [["send", 1]], "maps": {"1": [["panic", 9]]},
+            {"api": "mr", "workers": 2, "ctx": "gate", "repeat": 20, "gen": [["send", 1]], "maps": {"1": [["panic", 9]]},
              "red": [["recvall"]], "events": [["g"], ["g"], ["m", 1], ["r"], ["r"], ["k"]]},
-            {"api": "mr", "workers": 2, "ctx": "gate", "repeat": 6, "gen": [["send", 1], ["send", 2]],
+            {"api": "mr", "workers": 2, "ctx": "gate", "repeat": 20, "gen": [["send", 1], ["send", 2]],
              "maps": {"1": [["write", 10], ["panic", 9]], "2": [["write", 20]]}, "red": [["recvall"], ["write", 777]],
              "events": [["g"], ["g"], ["g"], ["m", 2], ["m", 2], ["m", 1], ["m", 1], ["r"], ["r"], ["r"], ["k"]]},
-            {"api": "void", "workers": 1, "ctx": "gate", "repeat": 6, "gen": [["send", 1]], "maps": {"1": [["panic", 9]]},
+            {"api": "void", "workers": 1, "ctx": "gate", "repeat": 20, "gen": [["send", 1]], "maps": {"1": [["panic", 9]]},
              "red": [["recvall"]], "events": [["g"], ["g"], ["m", 1], ["r"], ["r"], ["k"]]},
             # held caller, a mapper cancels and another panics: either outcome, never a normal result
-            {"api": "mr", "workers": 2, "ctx": "gate", "repeat": 4, "gen": [["send", 1], ["send", 2]],
+            {"api": "mr", "workers": 2, "ctx": "gate", "repeat": 12, "gen": [["send", 1], ["send", 2]],
              "maps": {"1": [["cancel", 5]], "2": [["panic", 9]]}, "red": [["recvall"], ["write", 777]],
              "events": [["g"], ["g"], ["g"], ["m", 1], ["m", 2], ["r"], ["k"]]},
+            # a cancel while another mapper and the reducer stay parked: the call returns without them (seeded change C10-6)
+            {"api": "mr", "workers": 2, "gen": [["send", 1], ["send", 2]], "maps": {"1": [["cancel", 5]], "2": []}, "red": rw,
+             "events": [["g"], ["g"], ["g"], ["m", 1]]},
+            {"api": "void", "workers": 2, "gen": [["send", 1], ["send", 2]], "maps": {"1": [], "2": []}, "red": [["recvall"]],
+             "events": [["g"], ["g"], ["g"], ["c"]]},
+            # a mapper parked in Write on the full collector when the reducer cancels and returns without reading on /
+            # when the context ends: the wrapper's drain must release it (seeded change C10-8)
+            {"api": "mr", "workers": 1, "gen": [["send", 1]], "maps": {"1": [["write", 10], ["write", 11], ["write", 12]]},
+             "red": [["cancel", 5]], "events": [["g"], ["g"], ["m", 1], ["m", 1], ["r"]]},
+            {"api": "mr", "workers": 1, "gen": [["send", 1]], "maps": {"1": [["write", 10], ["write", 11], ["write", 12]]},
+             "red": [], "events": [["g"], ["g"], ["m", 1], ["m", 1], ["c"], ["r"]]},
         ] + self._value_corpus() + ([
             # F29: an error that is ErrReduceNoOutput passed to cancel under MapReduceVoid / returned by a Finish function
             {"api": "void", "workers": 1, "gen": [["send", 1]], "maps": {"1": [["cancel", 1002]]}, "red": [["recvall"]], "events": []},
